@@ -55,10 +55,43 @@ def get_interp(extra_modules):
     return _INTERP
 
 
+_GLOBAL_CONTAINERS = []     # (container, shallow copy at first use): module- and class-level dicts/lists/sets of Pyro5
+
+
+def _snapshot_global_containers():
+    import inspect
+    seen = set()
+    for name, mod in list(sys.modules.items()):
+        if mod is None or not (name == "Pyro5" or name.startswith("Pyro5.")):
+            continue
+        owners = [mod] + [c for c in vars(mod).values() if inspect.isclass(c) and getattr(c, "__module__", "") == name]
+        for owner in owners:
+            for attr, val in list(vars(owner).items()):
+                if type(val) in (dict, list, set) and id(val) not in seen and not (owner is mod and attr.startswith("__") and attr.endswith("__")):
+                    seen.add(id(val))
+                    _GLOBAL_CONTAINERS.append((val, val.copy()))
+
+
+def _restore_global_containers():
+    """module-level and class-level caches/registries of Pyro5 must not carry state from one explored path (or native
+    replay) into the next: their contents are put back to what they were when the process first used them"""
+    if not _GLOBAL_CONTAINERS:
+        _snapshot_global_containers()
+        return
+    for val, saved in _GLOBAL_CONTAINERS:
+        if type(val) is list:
+            if val != saved:
+                val[:] = saved
+        elif val != saved:
+            val.clear()
+            val.update(saved)
+
+
 def default_reset():
     import Pyro5
     from Pyro5 import config
     config.reset(False)
+    _restore_global_containers()
     try:
         from Pyro5 import callcontext
         ctx = callcontext.current_context
